@@ -743,6 +743,8 @@ def _make_case(cfg):
         X = X + (1.0 if cfg.get("container") == "intX" else 0.5)
     y = X @ beta + (1.0 if cfg.get("fit_intercept", True) else 0.0) + rs.randn(n) * cfg["noise"]
     y = y * cfg.get("scale", 1.0)          # targets of another scale; the residual floor `delta` is scaled alike
+    if cfg.get("offset") and cfg.get("fit_intercept", True):
+        y = y + cfg["offset"]              # a level far above the noise: the quantile hyperplane just moves with it
     w = None
     if cfg.get("weights") == "int":
         w = rs.randint(1, 4, size=n).astype(float)
@@ -776,6 +778,16 @@ def _check_case(cfg):
             import pandas
             Xc = pandas.DataFrame(X, columns=["f%d" % j for j in range(d)])
             yc = pandas.Series(y, index=numpy.random.RandomState(cfg["seed"] + 2).permutation(n))
+        if cfg.get("reconfigured"):
+            # history: the same object was first fitted under the OPPOSITE fit_intercept / another quantile, then given its
+            # configuration through set_params: the fit examined below is the one of the current parameters
+            try:
+                m.set_params(fit_intercept=not fi, quantile=0.5 if q != 0.5 else 0.3)
+                m.fit(Xc, yc, w)
+                m.predict(X)
+            except Exception:  # noqa: BLE001
+                pass
+            m.set_params(fit_intercept=fi, quantile=q)
         try:
             r = m.fit(Xc, yc, w)
         except Exception as e:
@@ -819,7 +831,10 @@ def _check_case(cfg):
                         {"loss": [L, L2], "score": [s1, s2]}, "score increasing with the pinball loss"))
         # --- optimality against the exact LP optimum
         sc = cfg.get("scale", 1.0)
-        Lo = _lp_optimum(q, X, y / sc, w, fi, pos) * sc      # the LP solver's tolerances are absolute: solve at unit scale
+        # the LP solver's tolerances are absolute: solve at unit scale, and around zero (a level of 1e5 would drown them)
+        off = cfg.get("offset", 0.0) if fi else 0.0
+        Lo = _lp_optimum(q, X, (y - off) / sc, w, fi, pos)
+        Lo = None if Lo is None else Lo * sc
         if Lo is not None and Lo > 1e-12:
             gap = (L - Lo) / Lo
             stats["gap"] = gap
@@ -881,6 +896,12 @@ def _configs(ctx, count):
                     "fit_intercept": rng.random() < 0.75, "positive": rng.random() < 0.2})
         if t % 8 == 5:
             out[-1]["scale"] = rng.choice([1e-6, 1e-3, 1e3])
+        if t % 4 == 2:
+            out[-1]["reconfigured"] = True
+        if t % 7 == 4 and not out[-1]["positive"] and "scale" not in out[-1]:
+            # (positive=True also bounds the intercept: the level matters there; a level of 1e5 on targets of spread 1e-6
+            #  would leave four significant digits to the residuals)
+            out[-1]["offset"] = rng.choice([1e4, 1e5, -1e5])      # targets far from 0 compared with their spread
         if t % 5 == 3:
             out[-1]["container"] = rng.choice(["intX", "frame"])
             if out[-1]["container"] == "frame" and t % 2:
